@@ -166,7 +166,7 @@ static void print_vec(Out& o, Vec const& c)
 
 // ---------------------------------------------------------------------------------------------------------------------
 // impl: static_vector
-template <typename Vec, typename T>
+template <typename Vec, typename T, std::size_t N>
 static void sv_step(Step const& s, Vec (&v)[2], Out& o)
 {
     constexpr bool copyable = std::is_copy_constructible_v<T>;
@@ -232,6 +232,14 @@ static void sv_step(Step const& s, Vec (&v)[2], Out& o)
     else if (op == "ctn") { Vec tmp(static_cast<std::size_t>(A(0))); print_vec(o, tmp); x = etl::move(tmp); }
     else if (op == "ctv") { if constexpr (copyable) { T c = val(1); Vec tmp(static_cast<std::size_t>(A(0)), c); print_vec(o, tmp); x = etl::move(tmp); } else { unsupported(); } }
     else if (op == "ctr") { if constexpr (copyable) { auto src = mkvec<T>(s.xs); Vec tmp(src.data(), src.data() + src.size()); print_vec(o, tmp); x = etl::move(tmp); } else { unsupported(); } }
+    else if (op == "cta") {
+        // static_vector(c_array<T, 2>&&); a larger array than the capacity does not compile (requires-clause)
+        if constexpr (N >= 2) {
+            T arr[2] = {mk<T>(static_cast<int>(s.xs.at(0))), mk<T>(static_cast<int>(s.xs.at(1)))};
+            Vec tmp(etl::move(arr)); print_vec(o, tmp); x = etl::move(tmp);
+        } else { unsupported(); }
+    }
+    else if (op == "cte") { Vec tmp(etl::empty_c_array{}); print_vec(o, tmp); x = etl::move(tmp); }
     else if (op == "cpi") {
         if constexpr (copyable) {
             Vec c(x);
@@ -365,7 +373,7 @@ static void run_sv(std::vector<Step> const& steps, Out& impl)
         static_assert(std::is_move_assignable_v<Vec>);
         Vec v[2];
         run_steps(steps, impl, [&](Step const& s, Out& o) {
-            sv_step<Vec, T>(s, v, o);
+            sv_step<Vec, T, N>(s, v, o);
             o.tok("/"); observe_one(o, v[0]); observe_one(o, v[1]);
             if (v[0].capacity() != N || v[1].capacity() != N || v[0].max_size() != N) { o.tok("capacity-changed"); }
         });
@@ -535,7 +543,7 @@ static std::vector<Step> parse(Toks& in)
             else if (is({"icr", "irv", "emp", "err", "rsv", "asn", "sat", "ctv", "cpi", "fil"})) { need(2); }
             else if (is({"inn"})) { need(3); }
             else if (is({"irg", "mir"})) { need(1); s.xs = in.list(); }
-            else if (is({"asr", "ctr", "fcc", "fcr"})) { s.xs = in.list(); }
+            else if (is({"asr", "ctr", "cta", "fcc", "fcr"})) { s.xs = in.list(); }
         }
         steps.push_back(s);
     }
@@ -620,6 +628,8 @@ static bool std_step(Step const& s, RV (&v)[2], std::size_t cap, Out& o)
     else if (op == "ctn") { if (A(0) < 0 || A(0) > icap) { return false; } RV tmp(static_cast<std::size_t>(A(0))); print_std(o, tmp); x = std::move(tmp); }
     else if (op == "ctv") { if (A(0) < 0 || A(0) > icap) { return false; } RV tmp(static_cast<std::size_t>(A(0)), I(1)); print_std(o, tmp); x = std::move(tmp); }
     else if (op == "ctr") { if (s.xs.size() > cap) { return false; } RV tmp(s.xs.begin(), s.xs.end()); print_std(o, tmp); x = std::move(tmp); }
+    else if (op == "cta") { if (s.xs.size() != 2 || cap < 2) { return false; } RV tmp{static_cast<int>(s.xs[0]), static_cast<int>(s.xs[1])}; print_std(o, tmp); x = std::move(tmp); }
+    else if (op == "cte") { RV tmp; print_std(o, tmp); x = std::move(tmp); }
     else if (op == "cpi") { RV c(x); if (A(0) != 0) { ref_mutate(c, I(1), cap); } else { ref_mutate(x, I(1), cap); } print_std(o, c); }
     // inplace_vector interface
     else if (op == "tpb" || op == "tem" || op == "tpr") { if (room < 1) { o.b(false); } else { x.push_back(I(0)); o.b(true); } }
